@@ -382,8 +382,8 @@ pub fn exec_par(w: &mut World, st: &Step) -> bool {
     if racy_pair {
         w.stat("batches_with_discard_racing_write");
         // the damage (data written into a freed cluster) may surface later
-        w.kf02_tainted = true;
-        crate::props::KF02_TAINT.with(|t| t.set(true));
+        // (this race used to free the host cluster under the write: finding
+        // KF02, repaired by F45; such histories are ordinary ones now)
     }
     // spurious failures
     if w.oracles.fault_free {
